@@ -343,10 +343,18 @@ func (s *Sim) spendable(chain, acct int) (string, sdkmath.Int, bool) {
 // aim picks an amount near the quota boundaries of the source or destination path (hint only).
 func (s *Sim) aim(src int, sk ratelimit.Key, dst int, dk ratelimit.Key, bal sdkmath.Int) sdkmath.Int {
 	var rem *big.Int
-	if r, ok := s.M[src].Remaining(sk, ratelimit.Send); ok && s.R.Intn(4) > 0 {
-		rem = r
-	} else if r, ok := s.M[dst].Remaining(dk, ratelimit.Recv); ok {
-		rem = r
+	rs, okS := s.M[src].Remaining(sk, ratelimit.Send)
+	rr, okR := s.M[dst].Remaining(dk, ratelimit.Recv)
+	switch {
+	case okS && okR:
+		rem = rs
+		if k := s.R.Intn(10); (k < 6 && rr.Cmp(rs) < 0) || k >= 8 {
+			rem = rr
+		}
+	case okS:
+		rem = rs
+	case okR:
+		rem = rr
 	}
 	amt := int64(1 + s.R.Intn(2500))
 	if rem != nil && rem.IsInt64() && rem.Int64() > 0 {
